@@ -1005,7 +1005,7 @@ func envOr(k, d string) string {
 func nativeEventsFiltered(evs []nativeEvent) []nativeEvent {
 	var out []nativeEvent
 	for _, e := range evs {
-		if e.Kind == "cover" {
+		if e.Kind == "cover" || e.Kind == "nativeassert" {
 			continue
 		}
 		out = append(out, e)
@@ -1024,6 +1024,11 @@ func compareWitness(r *PathResult, o *nativeOutcome) (bool, string) {
 		if o.Dead {
 			return false, "native run failed a verifAssume"
 		}
+		for _, e := range o.Events {
+			if e.Kind == "nativeassert" && e.Val != "true" {
+				return false, "stub contract violated on the native side: " + e.ID
+			}
+		}
 		var pred []nativeEvent
 		for i, e := range r.Events {
 			switch e.Kind {
@@ -1032,28 +1037,56 @@ func compareWitness(r *PathResult, o *nativeOutcome) (bool, string) {
 				if strings.HasPrefix(k, "observe") {
 					k = "observe"
 				}
-				v := ""
+				v, id := "", e.ID
 				if i < len(r.EventVal) {
 					v = r.EventVal[i]
 				}
-				pred = append(pred, nativeEvent{k, e.ID, v})
+				if i < len(r.EventID) {
+					id = r.EventID[i]
+				}
+				pred = append(pred, nativeEvent{k, id, v})
 			}
 		}
 		nat := nativeEventsFiltered(o.Events)
-		n := len(pred)
-		if len(nat) < n {
-			n = len(nat)
+		// compared as multisets: the relative order of observations carries no meaning (map entries are
+		// flattened in key order natively and in insertion order symbolically)
+		key := func(e nativeEvent) string { return e.Kind + "\x00" + e.ID + "\x00" + e.Val }
+		ps, ns := append([]nativeEvent{}, pred...), append([]nativeEvent{}, nat...)
+		sort.Slice(ps, func(i, j int) bool { return key(ps[i]) < key(ps[j]) })
+		sort.Slice(ns, func(i, j int) bool { return key(ns[i]) < key(ns[j]) })
+		// opaque strings: content of formatted strings is not modelled
+		opaque := map[string]bool{}
+		for _, e := range ps {
+			if e.Val == "<opaque-string>" {
+				opaque[e.Kind+"\x00"+e.ID] = true
+			}
+		}
+		filter := func(evs []nativeEvent) []nativeEvent {
+			var out []nativeEvent
+			for _, e := range evs {
+				if opaque[e.Kind+"\x00"+e.ID] {
+					continue
+				}
+				out = append(out, e)
+			}
+			return out
+		}
+		ps, ns = filter(ps), filter(ns)
+		n := len(ps)
+		if len(ns) < n {
+			n = len(ns)
 		}
 		for i := 0; i < n; i++ {
-			if pred[i].Val == "<opaque-string>" && pred[i].Kind == nat[i].Kind && pred[i].ID == nat[i].ID && strings.HasPrefix(nat[i].Val, "s:") {
-				continue // content of formatted strings is not modelled
-			}
-			if pred[i] != nat[i] {
-				return false, fmt.Sprintf("event %d: engine predicts %v, native gives %v", i, pred[i], nat[i])
+			if ps[i] != ns[i] {
+				return false, fmt.Sprintf("engine predicts %v, native gives %v", ps[i], ns[i])
 			}
 		}
-		if len(pred) != len(nat) {
-			return false, fmt.Sprintf("event count: engine %d, native %d (outcome %s, native panic %q)", len(pred), len(nat), r.Outcome, trunc(o.Panic, 200))
+		if len(ps) != len(ns) {
+			extra := ps
+			if len(ns) > len(ps) {
+				extra = ns
+			}
+			return false, fmt.Sprintf("event count: engine %d, native %d, first unmatched %v (outcome %s, native panic %q)", len(ps), len(ns), extra[n], r.Outcome, trunc(o.Panic, 200))
 		}
 		if r.Outcome == "PANIC" && o.Panic == "" {
 			return false, "engine predicts a panic (" + r.Detail + "), native run does not panic"
